@@ -47,6 +47,9 @@ ProbeStrs == << "a eq 1",
                 \* a syntax error AT a slash (a lexer that switches mode after "/" must switch back), then inputs that
                 \* begin with a keyword
                 "(a)/b eq 1", "a/", "null eq x", "not a", "true",
+                \* a lexical error right after a keyword-like word (anything held back for one token must not survive the
+                \* error), then inputs that begin with a parenthesis / a name
+                "not#", "(a eq 1)", "a#",
                 \* many unclosed and many unopened parentheses (a nesting counter kept on the instance must start afresh)
                 "((((((((((((((((((((((((((((((((((((((((((((((((((((((((((((((((((((((((((((((((((((((((((((((((((((((((((((((((((((((((((((((((((((((((((((a", "a))))))))))))))))))))))))))))))))))))))))))))))))))))))))))))))))))))))))))))))))))))))))))))))))))))))))))))))))))))))))))))))))))))))))))))", "(a eq 1) and (b in (1, 2))", "a/b/c gt 1 and a/b/c lt 5" >>
 NProbes == Len(ProbeStrs)
